@@ -105,6 +105,8 @@ def apply_contract(interp, c, func, args, kwargs):
         old = _call_pred(interp, c.old, env)
     if c.event is not None:
         st.emit(c.event, dict(bound))
+    if c.modifies:
+        _havoc_modified(interp, c, bound)
     # exceptional outcomes
     outcomes = ['return']
     for exc_cls, spec in c.raises.items():
@@ -141,6 +143,38 @@ def apply_contract(interp, c, func, args, kwargs):
             continue
         st.assume(interp.truth(_call_pred(interp, clause, env2)))
     return result
+
+
+def _havoc_modified(interp, c, bound):
+    """Call site of a contract with `modifies`: the named mutable lists / iterators get arbitrary new contents
+    (in place: aliases see the same object); what is known afterwards is what `ensures` says."""
+    from .mlist import MList
+    from .models import SIter
+    st = interp.st
+    k = st.counters.get('call!modifies', 0)
+    st.counters['call!modifies'] = k + 1
+    tag = 'call%d' % k
+    for path in c.modifies:
+        parts = path.split('.')
+        if parts[0] not in bound:
+            raise Unsupported('modifies %r of %s: no such parameter' % (path, c.qname))
+        obj = bound[parts[0]]
+        for a in parts[1:]:
+            obj = interp.getattr(obj, a)
+        if isinstance(obj, (SOpt, SChoice)):
+            obj = interp.resolve(obj)
+        if isinstance(obj, MList):
+            obj.havoc(interp, tag)
+        elif isinstance(obj, SIter):
+            p0 = to_z3(obj.pos) if not isinstance(obj.pos, int) else z3.IntVal(obj.pos)
+            p1 = st.fresh_int('%s.pos@%s' % (obj.xs.uid, tag))
+            st.assume(z3.And(p1 >= p0, z3.Or(p1 <= obj.xs.length, p1 == p0)))
+            obj.pos = wrap(p1)
+        elif isinstance(obj, list):
+            raise Unsupported('contract %s modifies %r, but the caller passes a concrete list: declare the '
+                              'caller\'s local in its contract (locals=dict(name=MListOf(...)))' % (c.qname, path))
+        else:
+            raise Unsupported('modifies %r of %s: neither a symbolic mutable list nor an iterator' % (path, c.qname))
 
 
 def _make_exc(interp, exc_cls, spec, env):
